@@ -132,6 +132,7 @@ func runC02(c *core.Ctx) {
 		form     func(time.Time) string
 		idpInit  bool // SP configured with AllowIDPInitiated (the windows must hold regardless)
 		noDest   bool // Response without Destination (allowed when the Response itself is unsigned)
+		method   string // SubjectConfirmation Method of the varied confirmation ("" = bearer): the window holds for every confirmation
 	}
 	build := func(s spec, t tol) ([]byte, string) {
 		fm := func(kind int, tm time.Time) string {
@@ -152,6 +153,9 @@ func runC02(c *core.Ctx) {
 		a.NotOnOrAfter = samlgen.S(fm(kNOOA, instantAt(kNOOA, s.pos[kNOOA], now, t)))
 		varied := a.Confirmations[0]
 		varied.NotOnOrAfter = samlgen.S(fm(kSCD, instantAt(kSCD, s.pos[kSCD], now, t)))
+		if s.method != "" {
+			varied.Method = s.method
+		}
 		good := a.Confirmations[0]
 		good.NotOnOrAfter = samlgen.S(std(instantAt(kSCD, posFarIn, now, t)))
 		switch s.confs {
@@ -194,7 +198,10 @@ func runC02(c *core.Ctx) {
 				allFar = false
 			}
 		}
-		if !allFar || s.form != nil || s.second || s.confs != 1 || s.idpInit || s.noDest {
+		if v == core.MustAccept && s.method != "" && s.confs == 1 {
+			v = core.DontCare // no obligation to accept an assertion without any bearer confirmation
+		}
+		if !allFar || s.form != nil || s.second || s.confs != 1 || s.idpInit || s.noDest || s.method != "" {
 			t.NonTrivial()
 		}
 		t.Outcome(harness.ErrClass(err))
@@ -252,12 +259,18 @@ func runC02(c *core.Ctx) {
 				name            string
 				idpInit, noDest bool
 				lay             harness.Layout
-			}{{"idpinit/R", true, false, harness.Layout{SignResponse: true}}, {"idpinit/A", true, false, harness.Layout{SignAssertion: true}},
-				{"nodest/A", false, true, harness.Layout{SignAssertion: true}}, {"idpinit+nodest/A", true, true, harness.Layout{SignAssertion: true}}} {
-				for _, confs := range []int{1, 3} {
+				method          string
+			}{{"idpinit/R", true, false, harness.Layout{SignResponse: true}, ""}, {"idpinit/A", true, false, harness.Layout{SignAssertion: true}, ""},
+				{"nodest/A", false, true, harness.Layout{SignAssertion: true}, ""}, {"idpinit+nodest/A", true, true, harness.Layout{SignAssertion: true}, ""},
+				{"holder-of-key/R", false, false, harness.Layout{SignResponse: true}, "urn:oasis:names:tc:SAML:2.0:cm:holder-of-key"},
+				{"sender-vouches/A", false, false, harness.Layout{SignAssertion: true}, "urn:oasis:names:tc:SAML:2.0:cm:sender-vouches"}} {
+				for _, confs := range []int{1, 2, 3} {
+					if opt.method == "" && confs == 2 {
+						continue
+					}
 					key := fmt.Sprintf("opt=%s/tol=%s/resp=%s/ass=%s/nb=%s/nooa=%s/scd=%s/confs=%d", opt.name, tl.name,
 						posNames[pos[0]], posNames[pos[1]], posNames[pos[2]], posNames[pos[3]], posNames[pos[4]], confs)
-					s := spec{pos: pos, confs: confs, lay: opt.lay, idpInit: opt.idpInit, noDest: opt.noDest}
+					s := spec{pos: pos, confs: confs, lay: opt.lay, idpInit: opt.idpInit, noDest: opt.noDest, method: opt.method}
 					tl := tl
 					c.Case(key, func(t *core.T) { runOne(t, s, tl, key) })
 				}
